@@ -77,7 +77,13 @@ def main(batch_path: str, journal_path: str) -> int:
         data = bytes.fromhex(item["hex"])
         for entry in item["entries"]:
             log({"i": item["i"], "entry": entry, "ev": "start"})
-            if item.get("source") == "file":
+            if item.get("source") == "raw-nonseekable":
+                from ..sources import DribbleRaw
+                src = DribbleRaw(data, [1 << 20])                 # what a pipe / socket looks like to the parser
+            elif item.get("source") == "buffered-nonseekable":
+                from ..sources import DribbleRaw
+                src = io.BufferedReader(DribbleRaw(data, [7, 1 << 20]))
+            elif item.get("source") == "file":
                 p = os.path.join(tmpdir, "in.jelly")
                 with open(p, "wb") as f:
                     f.write(data)
@@ -101,6 +107,7 @@ def main(batch_path: str, journal_path: str) -> int:
                     tb = traceback.extract_tb(e.__traceback__)
                     rec["exc_where"] = [f"{os.path.relpath(fr.filename, env.REPO) if fr.filename.startswith(env.REPO) else fr.filename}:{fr.name}"
                                         for fr in tb[-4:]]
+                    rec["exc_line"] = (tb[-1].line or "")[:120] if tb else ""
             except BaseException as e:  # noqa: BLE001 - SystemExit, KeyboardInterrupt, GeneratorExit...
                 rec["outcome"] = "base-exception"
                 rec["exc"] = type(e).__name__
